@@ -21,6 +21,12 @@ Proof.
   rewrite !dec_octet_noslash by lia. reflexivity.
 Qed.
 
+Lemma labels_in_range : forall ls, Forall (fun l => l < 1048576) ls -> existsb (fun l => 1048575 <? l) ls = false.
+Proof.
+  intros ls H. induction H as [|l ls Hl _ IH]; [reflexivity|]. cbn [existsb]. rewrite IH.
+  destruct (N.ltb_spec 1048575 l); [lia|reflexivity].
+Qed.
+
 Lemma labels_mod_id : forall ls, Forall (fun l => l < 1048576) ls -> map (fun l => l mod 1048576) ls = ls.
 Proof.
   intros ls H. induction H as [|l ls Hl _ IH]; [reflexivity|]. cbn [map]. rewrite IH. f_equal. lia.
@@ -44,6 +50,35 @@ Proof.
   - destruct (N.ltb_spec 65535 b); [discriminate|]. injection H as <-. cbn. unfold u32_ok in *. lia.
 Qed.
 
+Lemma octets_ok_true : forall w a m, wf_prefix w a m -> octets_ok w a m = true.
+Proof. intros w a m [_ [_ H]]. unfold octets_ok. rewrite H. reflexivity. Qed.
+
+Lemma wf_prefix_4 : forall a m, wf_prefix 4 a m -> a < 4294967296 /\ m <= 32.
+Proof. intros a m [H1 [H2 _]]. change (256 ^ 4) with 4294967296 in H1. lia. Qed.
+Lemma wf_prefix_16 : forall a m, wf_prefix 16 a m -> a < 2 ^ 128 /\ m <= 128.
+Proof. intros a m [H1 [H2 _]]. change (256 ^ 16) with (2 ^ 128) in H1. lia. Qed.
+
+Lemma labels_wf : forall ls m, existsb (fun l => 1048575 <? l) ls = false -> Nat.eqb (length ls) 0 = false ->
+  (255 <? 24 * N.of_nat (length ls) + m) = false -> wf_labels ls m.
+Proof.
+  intros ls m Hr Hne Hb. repeat split.
+  - destruct ls; [discriminate|]. discriminate.
+  - apply Forall_forall. intros x Hx. destruct (N.ltb_spec 1048575 x) as [Hgt|]; [|lia].
+    exfalso. assert (E : existsb (fun l => 1048575 <? l) ls = true).
+    { apply existsb_exists. exists x. split; [exact Hx|]. lia. }
+    rewrite E in Hr. discriminate.
+  - lia.
+Qed.
+
+Lemma wf_prefix_intro : forall w a m, a < 256 ^ w -> m <= 8 * w -> octets_ok w a m = true -> wf_prefix w a m.
+Proof. intros w a m Ha Hm Ho. unfold octets_ok in Ho. apply N.eqb_eq in Ho. repeat split; assumption. Qed.
+
+(* the five guards of the labeled / VPN arms *)
+Lemma guards_inv : forall (b1 b2 b3 b4 b5 : bool), b1 || b2 || b3 || b4 || negb b5 = false ->
+  b1 = false /\ b2 = false /\ b3 = false /\ b4 = false /\ b5 = true.
+Proof. intros [] [] [] [] []; cbn; intros H; try discriminate; repeat split; reflexivity. Qed.
+
+
 Section NlriProofs.
   Variable v6p : N -> list N.
   Variable v6r : list N -> option N.
@@ -58,71 +93,66 @@ Section NlriProofs.
   Proof.
     intros n [Hrt Hn4] Hns Hwf. destruct n as [a m|a m|ls a m|ls a m|ls d a m|ls d a m]; cbn [wf_nlri] in Hwf;
       cbn [nlri_to_api net_from_api].
-    5: { destruct Hwf as [Ha [Hm [Hd [Hne [Hl Hb]]]]]. rewrite rd_roundtrip, ip4_roundtrip by assumption.
-         destruct (N.ltb_spec 32 m); [lia|]. destruct ls as [|l ls]; [contradiction|]. cbn [length Nat.eqb orb].
-         destruct (N.ltb_spec 255 (24 * N.of_nat (S (length ls)) + 64 + m)); [cbn [length] in Hb; lia|].
-         rewrite labels_mod_id by exact Hl. reflexivity. }
-    5: { destruct Hwf as [Ha [Hm [Hd [Hne [Hl Hb]]]]]. rewrite rd_roundtrip, Hn4, Hrt by assumption.
-         destruct (N.ltb_spec 128 m); [lia|]. destruct ls as [|l ls]; [contradiction|]. cbn [length Nat.eqb orb].
-         destruct (N.ltb_spec 255 (24 * N.of_nat (S (length ls)) + 64 + m)); [cbn [length] in Hb; lia|].
-         rewrite labels_mod_id by exact Hl. reflexivity. }
-    - destruct Hwf as [Ha Hm]. rewrite ip4_noslash, ip4_roundtrip by exact Ha.
-      destruct (N.ltb_spec 255 m); [lia|]. destruct (N.ltb_spec 32 m); [lia|]. reflexivity.
-    - destruct Hwf as [Ha Hm]. rewrite Hns, Hn4, Hrt by exact Ha.
-      destruct (N.ltb_spec 255 m); [lia|]. destruct (N.ltb_spec 128 m); [lia|]. reflexivity.
-    - destruct Hwf as [Ha [Hm [Hne [Hl Hb]]]]. rewrite ip4_roundtrip by exact Ha.
-      destruct (N.ltb_spec 32 m); [lia|]. destruct ls as [|l ls]; [contradiction|]. cbn [length Nat.eqb orb].
-      destruct (N.ltb_spec 255 (24 * N.of_nat (S (length ls)) + m)); [cbn [length] in Hb; lia|].
-      rewrite labels_mod_id by exact Hl. reflexivity.
-    - destruct Hwf as [Ha [Hm [Hne [Hl Hb]]]]. rewrite Hn4, Hrt by exact Ha.
-      destruct (N.ltb_spec 128 m); [lia|]. destruct ls as [|l ls]; [contradiction|]. cbn [length Nat.eqb orb].
-      destruct (N.ltb_spec 255 (24 * N.of_nat (S (length ls)) + m)); [cbn [length] in Hb; lia|].
-      rewrite labels_mod_id by exact Hl. reflexivity.
-  Qed.
-
-  Lemma labels_wf : forall ls m, Nat.eqb (length ls) 0 = false ->
-    (255 <? 24 * N.of_nat (length ls) + m) = false -> wf_labels (map (fun l => l mod 1048576) ls) m.
-  Proof.
-    intros ls m Hne Hb. repeat split.
-    - destruct ls; [discriminate|]. discriminate.
-    - apply Forall_forall. intros x Hx. apply in_map_iff in Hx. destruct Hx as [l [<- _]]. lia.
-    - rewrite map_length. lia.
+    - pose proof (wf_prefix_4 a m Hwf) as [Ha Hm]. rewrite ip4_noslash, ip4_roundtrip by exact Ha.
+      destruct (N.ltb_spec 255 m); [lia|]. destruct (N.ltb_spec 32 m); [lia|].
+      rewrite (octets_ok_true 4 a m Hwf). reflexivity.
+    - pose proof (wf_prefix_16 a m Hwf) as [Ha Hm]. rewrite Hns, Hn4, Hrt by exact Ha.
+      destruct (N.ltb_spec 255 m); [lia|]. destruct (N.ltb_spec 128 m); [lia|].
+      rewrite (octets_ok_true 16 a m Hwf). reflexivity.
+    - destruct Hwf as [Hp [Hne [Hl Hb]]]. pose proof (wf_prefix_4 a m Hp) as [Ha Hm]. rewrite ip4_roundtrip by exact Ha.
+      destruct (N.ltb_spec 32 m); [lia|]. rewrite (labels_in_range ls Hl), (octets_ok_true 4 a m Hp).
+      destruct ls as [|l ls]; [contradiction|]. cbn [length Nat.eqb orb negb].
+      destruct (N.ltb_spec 255 (24 * N.of_nat (S (length ls)) + m)); [cbn [length] in Hb; lia|]. reflexivity.
+    - destruct Hwf as [Hp [Hne [Hl Hb]]]. pose proof (wf_prefix_16 a m Hp) as [Ha Hm]. rewrite Hn4, Hrt by exact Ha.
+      destruct (N.ltb_spec 128 m); [lia|]. rewrite (labels_in_range ls Hl), (octets_ok_true 16 a m Hp).
+      destruct ls as [|l ls]; [contradiction|]. cbn [length Nat.eqb orb negb].
+      destruct (N.ltb_spec 255 (24 * N.of_nat (S (length ls)) + m)); [cbn [length] in Hb; lia|]. reflexivity.
+    - destruct Hwf as [Hp [Hd [Hne [Hl Hb]]]]. pose proof (wf_prefix_4 a m Hp) as [Ha Hm].
+      rewrite rd_roundtrip, ip4_roundtrip by assumption.
+      destruct (N.ltb_spec 32 m); [lia|]. rewrite (labels_in_range ls Hl), (octets_ok_true 4 a m Hp).
+      destruct ls as [|l ls]; [contradiction|]. cbn [length Nat.eqb orb negb].
+      destruct (N.ltb_spec 255 (24 * N.of_nat (S (length ls)) + 64 + m)); [cbn [length] in Hb; lia|]. reflexivity.
+    - destruct Hwf as [Hp [Hd [Hne [Hl Hb]]]]. pose proof (wf_prefix_16 a m Hp) as [Ha Hm].
+      rewrite rd_roundtrip, Hn4, Hrt by assumption.
+      destruct (N.ltb_spec 128 m); [lia|]. rewrite (labels_in_range ls Hl), (octets_ok_true 16 a m Hp).
+      destruct ls as [|l ls]; [contradiction|]. cbn [length Nat.eqb orb negb].
+      destruct (N.ltb_spec 255 (24 * N.of_nat (S (length ls)) + 64 + m)); [cbn [length] in Hb; lia|]. reflexivity.
   Qed.
 
   Theorem net_from_api_wf : forall x n, v6_range -> api_nlri_in_range x -> net_from_api v6r x = Some n -> wf_nlri n.
   Proof.
     intros x n Hrg Hin H. destruct x as [|s len|ls s len|ls d s len|]; cbn [net_from_api] in H; try discriminate.
-    3: { cbn [api_nlri_in_range] in Hin.
-         destruct (rd_from_api d) as [d'|] eqn:Ed; [|discriminate]. pose proof (rd_from_api_wf d d' Hin Ed) as Hd.
-         destruct (ip4_of_string s) as [a|] eqn:E4.
-         + destruct (N.ltb_spec 32 len); [discriminate|]. cbn [orb] in H.
-           destruct (Nat.eqb (length ls) 0) eqn:El; [discriminate|]. cbn [orb] in H.
-           destruct (255 <? _) eqn:Eb in H; [discriminate|]. injection H as <-.
-           split; [eapply ip4_of_string_lt; eassumption|]. split; [lia|]. split; [exact Hd|].
-           apply labels_wf; [exact El|]. rewrite N.add_assoc. exact Eb.
-         + destruct (v6r s) as [a|] eqn:E6; [|discriminate].
-           destruct (N.ltb_spec 128 len); [discriminate|]. cbn [orb] in H.
-           destruct (Nat.eqb (length ls) 0) eqn:El; [discriminate|]. cbn [orb] in H.
-           destruct (255 <? _) eqn:Eb in H; [discriminate|]. injection H as <-.
-           split; [eapply Hrg; eassumption|]. split; [lia|]. split; [exact Hd|].
-           apply labels_wf; [exact El|]. rewrite N.add_assoc. exact Eb. }
     - destruct (existsb _ s); [discriminate|].
       destruct (ip4_of_string s) as [a|] eqn:E4.
       + destruct (N.ltb_spec 255 len); [discriminate|]. destruct (N.ltb_spec 32 len); [discriminate|].
-        injection H as <-. split; [eapply ip4_of_string_lt; eassumption|lia].
+        destruct (octets_ok 4 a len) eqn:Eo; [|discriminate]. injection H as <-.
+        apply wf_prefix_intro; [change (256 ^ 4) with 4294967296; eapply ip4_of_string_lt; eassumption|lia|exact Eo].
       + destruct (v6r s) as [a|] eqn:E6; [|discriminate].
         destruct (N.ltb_spec 255 len); [discriminate|]. destruct (N.ltb_spec 128 len); [discriminate|].
-        injection H as <-. split; [eapply Hrg; eassumption|lia].
+        destruct (octets_ok 16 a len) eqn:Eo; [|discriminate]. injection H as <-.
+        apply wf_prefix_intro; [change (256 ^ 16) with (2 ^ 128); eapply Hrg; eassumption|lia|exact Eo].
     - destruct (ip4_of_string s) as [a|] eqn:E4.
-      + destruct (N.ltb_spec 32 len); [discriminate|]. cbn [orb] in H.
-        destruct (Nat.eqb (length ls) 0) eqn:El; [discriminate|]. cbn [orb] in H.
-        destruct (255 <? _) eqn:Eb in H; [discriminate|]. injection H as <-.
-        split; [eapply ip4_of_string_lt; eassumption|]. split; [lia|]. apply labels_wf; assumption.
+      + destruct (_ || _) eqn:Eg in H; [discriminate|]. injection H as <-.
+        apply guards_inv in Eg. destruct Eg as [G1 [G2 [G3 [G4 G5]]]]. split.
+        * apply wf_prefix_intro; [change (256 ^ 4) with 4294967296; eapply ip4_of_string_lt; eassumption|lia|exact G5].
+        * apply labels_wf; assumption.
       + destruct (v6r s) as [a|] eqn:E6; [|discriminate].
-        destruct (N.ltb_spec 128 len); [discriminate|]. cbn [orb] in H.
-        destruct (Nat.eqb (length ls) 0) eqn:El; [discriminate|]. cbn [orb] in H.
-        destruct (255 <? _) eqn:Eb in H; [discriminate|]. injection H as <-.
-        split; [eapply Hrg; eassumption|]. split; [lia|]. apply labels_wf; assumption.
+        destruct (_ || _) eqn:Eg in H; [discriminate|]. injection H as <-.
+        apply guards_inv in Eg. destruct Eg as [G1 [G2 [G3 [G4 G5]]]]. split.
+        * apply wf_prefix_intro; [change (256 ^ 16) with (2 ^ 128); eapply Hrg; eassumption|lia|exact G5].
+        * apply labels_wf; assumption.
+    - cbn [api_nlri_in_range] in Hin.
+      destruct (rd_from_api d) as [d'|] eqn:Ed; [|discriminate]. pose proof (rd_from_api_wf d d' Hin Ed) as Hd.
+      destruct (ip4_of_string s) as [a|] eqn:E4.
+      + destruct (_ || _) eqn:Eg in H; [discriminate|]. injection H as <-.
+        apply guards_inv in Eg. destruct Eg as [G1 [G2 [G3 [G4 G5]]]]. split; [|split; [exact Hd|]].
+        * apply wf_prefix_intro; [change (256 ^ 4) with 4294967296; eapply ip4_of_string_lt; eassumption|lia|exact G5].
+        * apply labels_wf; [assumption|assumption|]. rewrite N.add_assoc. exact G4.
+      + destruct (v6r s) as [a|] eqn:E6; [|discriminate].
+        destruct (_ || _) eqn:Eg in H; [discriminate|]. injection H as <-.
+        apply guards_inv in Eg. destruct Eg as [G1 [G2 [G3 [G4 G5]]]]. split; [|split; [exact Hd|]].
+        * apply wf_prefix_intro; [change (256 ^ 16) with (2 ^ 128); eapply Hrg; eassumption|lia|exact G5].
+        * apply labels_wf; [assumption|assumption|]. rewrite N.add_assoc. exact G4.
   Qed.
 End NlriProofs.
 
@@ -130,19 +160,19 @@ End NlriProofs.
 Theorem encode_nlri_safe : forall p n, wf_nlri n -> exists b, encode_nlri p n = Ok b.
 Proof.
   intros p n Hwf. destruct n as [a m|a m|ls a m|ls a m|ls d a m|ls d a m]; cbn [wf_nlri] in Hwf; unfold encode_nlri, addr_bytes.
-  5: { destruct Hwf as [_ [Hm [_ [_ [_ Hb]]]]].
-       destruct (N.ltb_spec 255 ((24 * N.of_nat (length ls)) mod 256 + 64 + m)); [lia|]. cbn [andb].
-       destruct (Nat.leb_spec (N.to_nat ((m + 7) / 8)) 4); [|lia]. eexists. reflexivity. }
-  5: { destruct Hwf as [_ [Hm [_ [_ [_ Hb]]]]].
-       destruct (N.ltb_spec 255 ((24 * N.of_nat (length ls)) mod 256 + 64 + m)); [lia|]. cbn [andb].
-       destruct (Nat.leb_spec (N.to_nat ((m + 7) / 8)) 16); [|lia]. eexists. reflexivity. }
-  - destruct Hwf as [_ Hm]. destruct (Nat.leb_spec (N.to_nat ((m + 7) / 8)) 4); [|lia]. eexists. reflexivity.
-  - destruct Hwf as [_ Hm]. destruct (Nat.leb_spec (N.to_nat ((m + 7) / 8)) 16); [|lia]. eexists. reflexivity.
-  - destruct Hwf as [_ [Hm [_ [_ Hb]]]].
+  - destruct Hwf as [_ [Hm _]]. destruct (Nat.leb_spec (N.to_nat ((m + 7) / 8)) 4); [|lia]. eexists. reflexivity.
+  - destruct Hwf as [_ [Hm _]]. destruct (Nat.leb_spec (N.to_nat ((m + 7) / 8)) 16); [|lia]. eexists. reflexivity.
+  - destruct Hwf as [[_ [Hm _]] [_ [_ Hb]]].
     destruct (N.ltb_spec 255 ((24 * N.of_nat (length ls)) mod 256 + m)); [lia|]. cbn [andb].
     destruct (Nat.leb_spec (N.to_nat ((m + 7) / 8)) 4); [|lia]. eexists. reflexivity.
-  - destruct Hwf as [_ [Hm [_ [_ Hb]]]].
+  - destruct Hwf as [[_ [Hm _]] [_ [_ Hb]]].
     destruct (N.ltb_spec 255 ((24 * N.of_nat (length ls)) mod 256 + m)); [lia|]. cbn [andb].
+    destruct (Nat.leb_spec (N.to_nat ((m + 7) / 8)) 16); [|lia]. eexists. reflexivity.
+  - destruct Hwf as [[_ [Hm _]] [_ [_ [_ Hb]]]].
+    destruct (N.ltb_spec 255 ((24 * N.of_nat (length ls)) mod 256 + 64 + m)); [lia|]. cbn [andb].
+    destruct (Nat.leb_spec (N.to_nat ((m + 7) / 8)) 4); [|lia]. eexists. reflexivity.
+  - destruct Hwf as [[_ [Hm _]] [_ [_ [_ Hb]]]].
+    destruct (N.ltb_spec 255 ((24 * N.of_nat (length ls)) mod 256 + 64 + m)); [lia|]. cbn [andb].
     destruct (Nat.leb_spec (N.to_nat ((m + 7) / 8)) 16); [|lia]. eexists. reflexivity.
 Qed.
 
@@ -152,11 +182,11 @@ Lemma C17_v0_net_from_api_preserves_wf_refuted :
 Proof.
   exists (PLabeled [100] [49; 48; 46; 48; 46; 48; 46; 48] 300), (NLab4 [100] 167772160 44).
   split; [vm_compute; reflexivity|]. split; [|vm_compute; reflexivity].
-  intros [_ [Hm _]]. lia.
+  intros [[_ [Hm _]] _]. lia.
 Qed.
 
 Example nlri_examples :
-  wf_nlri (NLab4 [100; 3] 167772160 24) /\ wf_nlri (NV6 1 128)
+  wf_nlri (NLab4 [100; 3] 167772160 8) /\ wf_nlri (NV6 1 128)
   /\ net_from_api v6_parse (PLabeled [100] [49; 48; 46; 48; 46; 48; 46; 48] 300) = None
   /\ net_from_api v6_parse (nlri_to_api v6_print (NV6 1 128)) = Some (NV6 1 128).
 Proof.
